@@ -1,1 +1,242 @@
-(* placeholder: being written *)
+(* ConcFaults.v — Parts B, C, D of Conc.v: lock balance under every fault assignment, lock order,
+   absence of wait-for cycles, and the computed checks of the library's operation table. *)
+From Coq Require Import List Arith ZArith Lia Bool.
+From SC Require Import Model.Conc.
+Import ListNotations.
+
+(* ------------------------------------------------------------------ Part B *)
+
+Lemma held_add_diff h h' l d m :
+  (held_add h l d m - h m = held_add h' l d m - h' m)%Z.
+Proof. unfold held_add. destruct (lockid_eqb m l); lia. Qed.
+
+(* the common generalisation of sexec_shift and sexec_ext: fault functions that agree on the program's
+   tags, and arbitrary initial counts, give the same outcome, the same events and the same count change *)
+Lemma sexec_gen p : forall f g h h',
+  (forall t, In t (tags p) -> f t = g t) ->
+  fst (fst (sexec p f h)) = fst (fst (sexec p g h'))
+  /\ snd (sexec p f h) = snd (sexec p g h')
+  /\ forall l, (snd (fst (sexec p f h)) l - h l = snd (fst (sexec p g h')) l - h' l)%Z.
+Proof.
+  induction p as [|t|k|k|p1 IH1 p2 IH2|p1 IH1 p2 IH2|p1 IH1 p2 IH2]; intros f g h h' Hfg.
+  - simpl. repeat split. intros; lia.
+  - simpl. rewrite <- (Hfg t) by (simpl; auto). destruct (f t); simpl; repeat split; intros; lia.
+  - simpl. repeat split. intros m. apply held_add_diff.
+  - simpl. repeat split. intros m. apply held_add_diff.
+  - assert (H1 : forall t, In t (tags p1) -> f t = g t) by (intros; apply Hfg; simpl; apply in_or_app; auto).
+    assert (H2 : forall t, In t (tags p2) -> f t = g t) by (intros; apply Hfg; simpl; apply in_or_app; auto).
+    simpl. specialize (IH1 f g h h' H1).
+    destruct (sexec p1 f h) as [[o1 h1] e1], (sexec p1 g h') as [[o1' h1'] e1'].
+    simpl in IH1. destruct IH1 as (Eo & Ee & Ed). subst o1' e1'.
+    destruct o1.
+    + specialize (IH2 f g h1 h1' H2).
+      destruct (sexec p2 f h1) as [[o2 h2] e2], (sexec p2 g h1') as [[o2' h2'] e2'].
+      simpl in IH2. destruct IH2 as (Eo & Ee & Ed2). subst o2' e2'. simpl.
+      repeat split. intros l. specialize (Ed l). specialize (Ed2 l). lia.
+    + simpl. repeat split. exact Ed.
+  - assert (H1 : forall t, In t (tags p1) -> f t = g t) by (intros; apply Hfg; simpl; apply in_or_app; auto).
+    assert (H2 : forall t, In t (tags p2) -> f t = g t) by (intros; apply Hfg; simpl; apply in_or_app; auto).
+    simpl. specialize (IH1 f g h h' H1).
+    destruct (sexec p1 f h) as [[o1 h1] e1], (sexec p1 g h') as [[o1' h1'] e1'].
+    simpl in IH1. destruct IH1 as (Eo & Ee & Ed). subst o1' e1'.
+    destruct o1.
+    + simpl. repeat split. exact Ed.
+    + specialize (IH2 f g h1 h1' H2).
+      destruct (sexec p2 f h1) as [[o2 h2] e2], (sexec p2 g h1') as [[o2' h2'] e2'].
+      simpl in IH2. destruct IH2 as (Eo & Ee & Ed2). subst o2' e2'. simpl.
+      repeat split. intros l. specialize (Ed l). specialize (Ed2 l). lia.
+  - assert (H1 : forall t, In t (tags p1) -> f t = g t) by (intros; apply Hfg; simpl; apply in_or_app; auto).
+    assert (H2 : forall t, In t (tags p2) -> f t = g t) by (intros; apply Hfg; simpl; apply in_or_app; auto).
+    simpl. specialize (IH1 f g h h' H1).
+    destruct (sexec p1 f h) as [[o1 h1] e1], (sexec p1 g h') as [[o1' h1'] e1'].
+    simpl in IH1. destruct IH1 as (Eo & Ee & Ed). subst o1' e1'.
+    specialize (IH2 f g h1 h1' H2).
+    destruct (sexec p2 f h1) as [[o2 h2] e2], (sexec p2 g h1') as [[o2' h2'] e2'].
+    simpl in IH2. destruct IH2 as (Eo & Ee & Ed2). subst o2' e2'.
+    destruct o2; simpl; repeat split; intros l; specialize (Ed l); specialize (Ed2 l); lia.
+Qed.
+
+(* the outcome, the events and the held-count CHANGE of a program do not depend on the initial counts *)
+Lemma sexec_shift p faults h :
+  fst (fst (sexec p faults h)) = fst (fst (sexec p faults held0))
+  /\ snd (sexec p faults h) = snd (sexec p faults held0)
+  /\ forall l, snd (fst (sexec p faults h)) l = (h l + snd (fst (sexec p faults held0)) l)%Z.
+Proof.
+  destruct (sexec_gen p faults faults h held0 (fun _ _ => eq_refl)) as (Eo & Ee & Ed).
+  repeat split; auto. intros l. specialize (Ed l). unfold held0 in Ed at 2. lia.
+Qed.
+
+(* only the fault points that occur in the program matter *)
+Lemma sexec_ext p f g h : (forall t, In t (tags p) -> f t = g t) ->
+  fst (fst (sexec p f h)) = fst (fst (sexec p g h))
+  /\ snd (sexec p f h) = snd (sexec p g h)
+  /\ forall l, snd (fst (sexec p f h)) l = snd (fst (sexec p g h)) l.
+Proof.
+  intros Hfg. destruct (sexec_gen p f g h h Hfg) as (Eo & Ee & Ed).
+  repeat split; auto. intros l. specialize (Ed l). lia.
+Qed.
+
+(* every fault assignment is represented, as far as the listed tags are concerned, by a member of subsets *)
+Lemma subsets_cover l f :
+  exists s, In s (subsets l) /\ forall t, fault_fn s t = f t && existsb (Nat.eqb t) l.
+Proof.
+  induction l as [|x l IH].
+  - exists []. split; [simpl; auto|]. intros t. simpl. rewrite andb_false_r. reflexivity.
+  - destruct IH as (s & Hin & Hs). destruct (f x) eqn:Efx.
+    + exists (x :: s). split.
+      * simpl. apply in_or_app. right. apply in_map. exact Hin.
+      * intros t. unfold fault_fn in *. simpl. rewrite Hs.
+        destruct (Nat.eqb t x) eqn:Etx; simpl; [|reflexivity].
+        apply Nat.eqb_eq in Etx. subst t. rewrite Efx. reflexivity.
+    + exists s. split.
+      * simpl. apply in_or_app. left. exact Hin.
+      * intros t. unfold fault_fn in *. simpl. rewrite Hs.
+        destruct (Nat.eqb t x) eqn:Etx; simpl; [|reflexivity].
+        apply Nat.eqb_eq in Etx. subst t. rewrite Efx. reflexivity.
+Qed.
+
+Lemma subsets_cover_tags p faults :
+  exists s, In s (subsets (tags p)) /\ forall t, In t (tags p) -> faults t = fault_fn s t.
+Proof.
+  destruct (subsets_cover (tags p) faults) as (s & Hin & Hs).
+  exists s. split; [exact Hin|]. intros t Ht. rewrite Hs.
+  assert (existsb (Nat.eqb t) (tags p) = true) as ->.
+  { apply existsb_exists. exists t. split; [exact Ht|apply Nat.eqb_refl]. }
+  rewrite andb_true_r. reflexivity.
+Qed.
+
+Lemma held_zero_sound h : held_zero h = true -> forall l, h l = 0%Z.
+Proof.
+  unfold held_zero. intros H l.
+  apply andb_prop in H. destruct H as [H H3]. apply andb_prop in H. destruct H as [H1 H2].
+  apply Z.eqb_eq in H1, H2, H3. destruct l; assumption.
+Qed.
+
+(* C10: the finite check decides the property for EVERY fault assignment and every initial lock state *)
+Theorem no_leak_sound p : no_leak p = true ->
+  forall faults h l, snd (fst (sexec p faults h)) l = h l.
+Proof.
+  intros Hnl faults h l.
+  destruct (sexec_shift p faults h) as (_ & _ & Hsh). rewrite Hsh.
+  destruct (subsets_cover_tags p faults) as (s & Hin & Hs).
+  destruct (sexec_ext p faults (fault_fn s) held0 Hs) as (_ & _ & Hx). rewrite Hx.
+  unfold no_leak in Hnl. rewrite forallb_forall in Hnl. specialize (Hnl s Hin).
+  destruct (sexec p (fault_fn s) held0) as [[o1 h1] e1]. simpl.
+  rewrite (held_zero_sound h1 Hnl l). lia.
+Qed.
+
+Theorem respects_order_sound p : respects_order p = true ->
+  forall faults, order_ok_events (snd (sexec p faults held0)) held0 = true.
+Proof.
+  intros Hro faults.
+  destruct (subsets_cover_tags p faults) as (s & Hin & Hs).
+  destruct (sexec_ext p faults (fault_fn s) held0 Hs) as (_ & Hx & _). rewrite Hx.
+  unfold respects_order in Hro. rewrite forallb_forall in Hro. specialize (Hro s Hin).
+  destruct (sexec p (fault_fn s) held0) as [[o1 h1] e1]. simpl. exact Hro.
+Qed.
+
+Theorem well_locked_sound p l : well_locked p l = true ->
+  forall faults, acts_under_lock (snd (sexec p faults held0)) held0 l T_VALIDATE = true.
+Proof.
+  intros Hwl faults.
+  destruct (subsets_cover_tags p faults) as (s & Hin & Hs).
+  destruct (sexec_ext p faults (fault_fn s) held0 Hs) as (_ & Hx & _). rewrite Hx.
+  unfold well_locked in Hwl. rewrite forallb_forall in Hwl. specialize (Hwl s Hin).
+  destruct (sexec p (fault_fn s) held0) as [[o1 h1] e1]. simpl. exact Hwl.
+Qed.
+
+(* ------------------------------------------------------------------ Part C *)
+
+(* at every non-re-entrant acquisition inside an order-respecting trace, everything held ranks below *)
+Theorem order_ok_at_acquire : forall pre l post h0,
+  order_ok_events (pre ++ EAcq l :: post) h0 = true ->
+  let h := fold_left (fun h e => match e with EAcq m => held_add h m 1 | ERel m => held_add h m (-1) | _ => h end) pre h0 in
+  (h l <= 0)%Z -> forall m, (0 < h m)%Z -> lock_rank m < lock_rank l.
+Proof.
+  induction pre as [|e pre IH]; intros l post h0 Hok.
+  - cbn [app order_ok_events] in Hok. simpl. intros Hl m Hm.
+    apply andb_prop in Hok. destruct Hok as [Hok _].
+    apply orb_prop in Hok. destruct Hok as [Hok|Hok].
+    { apply Z.ltb_lt in Hok. lia. }
+    rewrite forallb_forall in Hok.
+    assert (Hin : In m [LColl; LBuf; LCls]) by (destruct m; simpl; auto).
+    specialize (Hok m Hin). apply orb_prop in Hok. destruct Hok as [Hok|Hok].
+    { apply Z.leb_le in Hok. lia. }
+    apply Nat.ltb_lt in Hok. exact Hok.
+  - simpl. destruct e as [k|k|t|t]; simpl in Hok.
+    + apply andb_prop in Hok. destruct Hok as [_ Hok]. exact (IH l post _ Hok).
+    + exact (IH l post _ Hok).
+    + exact (IH l post _ Hok).
+    + exact (IH l post _ Hok).
+Qed.
+
+Lemma wchain_head_waits c t ts last : wchain c t ts last -> exists l, w_waits c t = Some l.
+Proof.
+  destruct ts as [|u ts]; simpl.
+  - intros (l & Hw & _). eauto.
+  - intros [(l & Hw & _) _]. eauto.
+Qed.
+
+(* ranks strictly increase along a wait-for chain *)
+Lemma wchain_rank c : ordered_conf c ->
+  forall ts t last l l', wchain c t ts last -> w_waits c t = Some l -> w_waits c last = Some l' ->
+  lock_rank l < lock_rank l'.
+Proof.
+  intros Hord. induction ts as [|u ts IH]; intros t last l l' Hch Hw Hw'; simpl in Hch.
+  - destruct Hch as (l1 & Hw1 & Hhold & _). rewrite Hw in Hw1. inversion Hw1; subst l1.
+    exact (Hord last l' l Hw' Hhold).
+  - destruct Hch as [(l1 & Hw1 & Hhold & _) Hch]. rewrite Hw in Hw1. inversion Hw1; subst l1.
+    destruct (wchain_head_waits _ _ _ _ Hch) as (lu & Hwu).
+    pose proof (Hord u lu l Hwu Hhold) as H1.
+    pose proof (IH u last lu l' Hch Hwu Hw') as H2. lia.
+Qed.
+
+(* C10: with a strict lock order there is no wait-for cycle, hence no deadlock *)
+Theorem ordered_no_deadlock c : ordered_conf c -> ~ wait_cycle c.
+Proof.
+  intros Hord (t & ts & Hch).
+  destruct (wchain_head_waits _ _ _ _ Hch) as (l & Hw).
+  pose proof (wchain_rank c Hord ts t t l l Hch Hw Hw). lia.
+Qed.
+
+(* ------------------------------------------------------------------ Part D *)
+
+(* the library's operation table (Part D) satisfies all three checks: computed, not sampled *)
+Theorem table_no_leak : forallb no_leak all_progs = true.
+Proof. vm_compute. reflexivity. Qed.
+
+Theorem table_respects_order : forallb respects_order all_progs = true.
+Proof. vm_compute. reflexivity. Qed.
+
+Theorem table_well_locked :
+  forallb (fun fl => forallb (fun v => well_locked (prog_of_op fl v KMutate) LColl
+                                        && well_locked (prog_of_op fl v KRootNoLoad) LColl) all_variants) all_flavors = true.
+Proof. vm_compute. reflexivity. Qed.
+
+(* consequences for every program of the table, every fault assignment, every initial lock state *)
+Corollary table_no_leak_all p : In p all_progs ->
+  forall faults h l, snd (fst (sexec p faults h)) l = h l.
+Proof.
+  intros Hin. apply no_leak_sound.
+  pose proof table_no_leak as H. rewrite forallb_forall in H. apply H. exact Hin.
+Qed.
+
+Corollary table_respects_order_all p : In p all_progs ->
+  forall faults, order_ok_events (snd (sexec p faults held0)) held0 = true.
+Proof.
+  intros Hin. apply respects_order_sound.
+  pose proof table_respects_order as H. rewrite forallb_forall in H. apply H. exact Hin.
+Qed.
+
+Print Assumptions sexec_shift.
+Print Assumptions sexec_ext.
+Print Assumptions no_leak_sound.
+Print Assumptions respects_order_sound.
+Print Assumptions well_locked_sound.
+Print Assumptions order_ok_at_acquire.
+Print Assumptions ordered_no_deadlock.
+Print Assumptions table_no_leak.
+Print Assumptions table_respects_order.
+Print Assumptions table_well_locked.
+Print Assumptions table_no_leak_all.
+Print Assumptions table_respects_order_all.
